@@ -342,6 +342,52 @@ func init() {
 			optDoes("WithSSL", "c.useSSL = true") && optDoes("WithSSLPort", "c.SetSSLPort(true, fallback)")
 		emitBool("cfg_setters_unconditional", setters, "client.go: (With|Set)TLSPolicy, (With|Set)TLSPortPolicy, WithSSL/SetSSL, (With|Set)SSLPort assign tlspolicy / useSSL as their last statement, without a return before it; port side effects only under c.port == DefaultPort")
 
+		// the fallback dial of DialToSMTPClientWithContext: the SAME callee expression and the SAME context argument as the
+		// primary dial (only network / address differ); the context is the one derived with the connTimeout deadline
+		sameCallee, sameCtx := false, false
+		if fn, ok := p.funcs["Client.DialToSMTPClientWithContext"]; ok && fn.Body != nil {
+			var prim, fb *ast.CallExpr
+			derived := ""
+			ast.Inspect(fn.Body, func(x ast.Node) bool {
+				switch n := x.(type) {
+				case *ast.AssignStmt:
+					if len(n.Rhs) == 1 && len(n.Lhs) == 2 {
+						if ce, ok := n.Rhs[0].(*ast.CallExpr); ok && (p.src(ce.Fun) == "context.WithDeadline" || p.src(ce.Fun) == "context.WithTimeout") {
+							derived = p.src(n.Lhs[0])
+						}
+					}
+				case *ast.CallExpr:
+					for _, a := range n.Args {
+						switch p.src(a) {
+						case "c.ServerAddr()":
+							if prim == nil {
+								prim = n
+							} else {
+								prim = &ast.CallExpr{} // more than one primary dial: not the expected shape
+							}
+						case "c.serverFallbackAddr()":
+							if fb == nil {
+								fb = n
+							} else {
+								fb = &ast.CallExpr{}
+							}
+						}
+					}
+				}
+				return true
+			})
+			if prim != nil && fb != nil && prim.Fun != nil && fb.Fun != nil && len(prim.Args) == 3 && len(fb.Args) == 3 {
+				_, isIdent := prim.Fun.(*ast.Ident)
+				sameCallee = isIdent && p.src(prim.Fun) == p.src(fb.Fun)
+				sameCtx = derived != "" && p.src(prim.Args[0]) == derived && p.src(fb.Args[0]) == derived
+			}
+		} else {
+			untranslatable = append(untranslatable, "fallback_dial_site")
+		}
+		emitBool("fallback_dial_same_callee", sameCallee, "client.go DialToSMTPClientWithContext: the fallback dial calls the same function value (one identifier) as the primary dial")
+		emitBool("fallback_dial_same_ctx", sameCtx, "client.go DialToSMTPClientWithContext: primary and fallback dial both get the context derived with the connTimeout deadline")
+		emitBool("fallback_dial_same_as_primary", sameCallee && sameCtx, "client.go DialToSMTPClientWithContext: fallback dial = primary dial up to network / address")
+
 		// smtp.Client.cmd: every return path after Text.StartResponse(id) goes through Text.EndResponse(id) -- otherwise the
 		// textproto pipeline is never advanced and the next command waits in StartResponse for ever
 		endResp := false
